@@ -13,6 +13,7 @@ import (
 	"context"
 	"encoding/json"
 	"fmt"
+	"golang.org/x/text/unicode/norm"
 	"math/rand"
 	"reflect"
 	"strings"
@@ -98,6 +99,7 @@ var plainStrings = []string{"abc", "Content-Type", "application/json", "/uri/pat
 
 var hostileStrings = []string{
 	"привет мир", "日本語", "😀 emoji", "é",
+	"e\u0301 decomposed", "\u212b angstrom sign", "\u1100\u1161 jamo",
 	`a"b`, `a\b`, `a\\"b`, `'single'`, `"`, `\`, `\n literal`, "`backtick`",
 	"yes", "no", "on", "off", "y", "n", "null", "~", "123", "1.5", "0x1f", "1e3", "true", "false", ".inf", "2001-01-01", "0o17", "012", "1_000", "+1", "-",
 	"- dash", "key: value", "# not comment", "a #b", "[x]", "{x}", "*alias", "&anchor", "!tag", "|", ">", "%", "@at", "?", ": colon", "a: b: c", ",",
@@ -1017,6 +1019,19 @@ func classify(d Desc) string {
 	return strings.Join(parts, ",")
 }
 
+// nfc returns the description with every string in Unicode normalisation form C.
+func nfc(d Desc) (Desc, bool) {
+	b, err := json.Marshal(d)
+	if err != nil || norm.NFC.IsNormal(b) {
+		return d, false
+	}
+	var out Desc
+	if json.Unmarshal(norm.NFC.Bytes(b), &out) != nil {
+		return d, false
+	}
+	return out, true
+}
+
 func runDesc(res *vkit.Result, d Desc, rng *rand.Rand, idx int) {
 	seq++
 	base := fmt.Sprintf("/c16/case-%d", seq)
@@ -1025,6 +1040,27 @@ func runDesc(res *vkit.Result, d Desc, rng *rand.Rand, idx int) {
 		base = "/c16/ammo"
 	}
 	hclText, yamlText := d.HCL(rng), d.YAML()
+	if dn, changed := nfc(d); changed {
+		// Known finding (DESIGN §5 #31): the HCL front end hands every string through cty, which
+		// normalises it to NFC; the YAML front end keeps the bytes as written. The description as
+		// written is compared first and a difference goes under one fixed key; then the check goes
+		// on with what HCL makes of it — HCL(d) against YAML(NFC(d)) — where nothing may differ.
+		hp, yp := base+".nfc.hcl", base+".nfc.yaml"
+		_ = vkit.WriteMemAt(hp, []byte(hclText))
+		_ = vkit.WriteMemAt(yp, []byte(yamlText))
+		hc, herr := sconfig.ReadAmmoConfig(vkit.Fs(), hp)
+		yc, yerr := sconfig.ReadAmmoConfig(vkit.Fs(), yp)
+		vkit.RemoveMem(hp)
+		vkit.RemoveMem(yp)
+		if herr == nil && yerr == nil {
+			if df := vkit.Diff(hc, yc); df != "" {
+				res.Violate("C16/non-nfc-string/hcl-normalises-to-nfc", "a string that is not in Unicode normalisation form C is normalised by the HCL front end and kept as written by the YAML front end: "+df,
+					map[string]any{"idx": idx, "hcl": hclText, "yaml": yamlText})
+			}
+			res.Count("descriptions_with_non_nfc_strings", 1)
+		}
+		d, yamlText = dn, dn.YAML()
+	}
 	// the format is told by the extension, in whatever case it is written
 	exts := [][2]string{{".hcl", ".yaml"}, {".hcl", ".yaml"}, {".HCL", ".YAML"}, {".Hcl", ".Yaml"}, {".hCl", ".yAmL"}}[seq%5]
 	hp, yp := base+exts[0], base+exts[1]
@@ -1163,6 +1199,9 @@ func concurrentLoads(res *vkit.Result, rng *rand.Rand, rounds int) {
 	var items []item
 	for i := 0; len(items) < 24 && i < 400; i++ {
 		d := genDesc(rng, 15, true)
+		if dn, changed := nfc(d); changed {
+			d = dn // see runDesc: non-NFC strings are a finding of their own
+		}
 		base := fmt.Sprintf("/c16/conc-%d", i)
 		hclText, yamlText := d.HCL(rng), d.YAML()
 		_ = vkit.WriteMemAt(base+".hcl", []byte(hclText))
